@@ -1,6 +1,6 @@
 //! Workload families for the array-based checkers.
 
-use vcommon::{Args, Reporter, Rng, Tier};
+use vcommon::{Args, Reporter, Rng};
 
 use crate::core::*;
 use crate::lib_ops::*;
@@ -446,8 +446,4 @@ pub fn fam_items(cx: &mut Ctx, cl: &Class3, rng: &mut Rng) {
             cx.j(&c, fam);
         }
     }
-}
-
-pub fn tier_is_miri(args: &Args) -> bool {
-    args.tier == Tier::Miri
 }
